@@ -579,6 +579,36 @@ fn dump_body<'tcx>(tcx: TyCtxt<'tcx>, did: DefId, out: &mut String) {
         first = false;
         out.push_str(&cx.block(bb));
     }
+    out.push_str("],\"promoted\":[");
+    // promoted constants (e.g. `&Operation::Delete`): tiny bodies whose _0 is the promoted value
+    let promoted = tcx.promoted_mir(did);
+    let mut firstp = true;
+    for (_, pbody) in promoted.iter_enumerated() {
+        if !firstp {
+            out.push(',');
+        }
+        firstp = false;
+        let pcx = Cx { tcx, body: pbody, def_id: did };
+        out.push_str("{\"locals\":[");
+        let mut f2 = true;
+        for (_, decl) in pbody.local_decls.iter_enumerated() {
+            if !f2 {
+                out.push(',');
+            }
+            f2 = false;
+            let _ = write!(out, "{{\"ty\":{},\"name\":null,\"adts\":[]}}", esc(&format!("{}", decl.ty)));
+        }
+        out.push_str("],\"blocks\":[");
+        let mut f3 = true;
+        for (_, bb) in pbody.basic_blocks.iter_enumerated() {
+            if !f3 {
+                out.push(',');
+            }
+            f3 = false;
+            out.push_str(&pcx.block(bb));
+        }
+        out.push_str("]}");
+    }
     out.push_str("]}");
 }
 
@@ -675,6 +705,24 @@ impl rustc_driver::Callbacks for Cb {
                 }
                 first = false;
                 let _ = write!(out, "{}:[{}]", esc(&tcx.def_path_str(did)), fields.join(","));
+            }
+        }
+        out.push_str("},\"enums\":{");
+        let mut first = true;
+        for ldid in tcx.hir_crate_items(()).definitions() {
+            let did = ldid.to_def_id();
+            if let DefKind::Enum = tcx.def_kind(did) {
+                let def = tcx.adt_def(did);
+                let mut vs: Vec<String> = Vec::new();
+                for (vi, discr) in def.discriminants(tcx) {
+                    let v = def.variant(vi);
+                    vs.push(format!("[{},{}]", esc(&v.name.to_string()), esc(&format!("{}", discr.val))));
+                }
+                if !first {
+                    out.push(',');
+                }
+                first = false;
+                let _ = write!(out, "{}:[{}]", esc(&tcx.def_path_str(did)), vs.join(","));
             }
         }
         let _ = write!(out, "}},\"n_bodies\":{}}}", n);
